@@ -1007,6 +1007,13 @@ struct Gen
 			s.sample = (unsigned) r.pick(S);
 			s.thin	 = (unsigned) r.pick(T);
 			s.burn	 = (unsigned) r.pick(B);
+			if(r.chance(0.35))
+			{
+				// any triple in 0..200, not only the grid
+				s.sample = (unsigned) r.irange(0, 60);
+				s.thin	 = (unsigned) r.irange(1, r.chance(0.8) ? 12 : 200);
+				s.burn	 = (unsigned) r.irange(0, r.chance(0.8) ? 30 : 200);
+			}
 			if((uint64_t) s.sample * s.thin > 3000)
 				s.thin = 3;
 		}
